@@ -72,10 +72,12 @@ theorem vNs_false_iff (cfg : Cfg) (ow : Owner) (cls : String) (inPhase : Bool) (
         · have : desiredNs ow p ≠ "" := fun h => hons (hd h)
           simp [hsame, this]
 
-/-- What preflight accepts, spelled out (the property's list): API exists, no ownerReferences of
-its own (rollout only), namespace rule, dry run accepted (rollout only). -/
+/-- What preflight accepts, spelled out (the property's list): the REST mapper answers (no
+transient lookup error), API exists, no ownerReferences of its own (rollout only), namespace rule,
+dry run accepted (rollout only). -/
 theorem preflight_ok_iff (cfg : Cfg) (ow : Owner) (cls : String) (inPhase : Bool) (p : PObj) :
     preflightObj cfg ow cls inPhase p = .ok ↔
+      cfg.mapErr p.kind = false ∧
       cfg.scope p.kind ≠ .unknown ∧
       (cfg.flavour.noOwnerRefs = true → inPhase = true → p.presetOwnerRef = false) ∧
       (cfg.flavour.dryRun = true → inPhase = true → p.dryRun = .accept) ∧
@@ -83,12 +85,22 @@ theorem preflight_ok_iff (cfg : Cfg) (ow : Owner) (cls : String) (inPhase : Bool
           desiredNs ow p = ow.ns ∧ cfg.scope p.kind = .namespaced) := by
   rw [← vOwner_false_iff, ← dry_ok_iff, ← vNs_false_iff]
   unfold preflightObj
-  by_cases hs : cfg.scope p.kind = .unknown
-  · simp [hs]
-  · simp only [hs, ↓reduceIte, ne_eq, not_false_eq_true, true_and]
-    cases h1 : (dryActive cfg inPhase && decide (p.dryRun = .error)) <;>
-      cases h2 : vOwner cfg inPhase p <;> cases h3 : vNs cfg ow cls inPhase p <;>
-      cases h4 : (dryActive cfg inPhase && decide (p.dryRun = .reject)) <;> simp
+  cases hm : cfg.mapErr p.kind
+  · simp only [Bool.false_eq_true, ↓reduceIte, true_and]
+    by_cases hs : cfg.scope p.kind = .unknown
+    · simp [hs]
+    · simp only [hs, ↓reduceIte, ne_eq, not_false_eq_true, true_and]
+      cases h1 : (dryActive cfg inPhase && decide (p.dryRun = .error)) <;>
+        cases h2 : vOwner cfg inPhase p <;> cases h3 : vNs cfg ow cls inPhase p <;>
+        cases h4 : (dryActive cfg inPhase && decide (p.dryRun = .reject)) <;> simp
+  · simp
+
+/-- **mapper_error_is_error**: a REST-mapper lookup that fails with anything but NoMatch makes the
+composed checker return the ERROR — it is neither a pass nor a violation, whatever the object is
+(`APIExistence` returns before `NamespaceEscalation` is consulted). -/
+theorem mapper_error_is_error (cfg : Cfg) (ow : Owner) (cls : String) (inPhase : Bool) (p : PObj)
+    (h : cfg.mapErr p.kind = true) : preflightObj cfg ow cls inPhase p = .error := by
+  simp [preflightObj, h]
 
 /-- keys a namespaced owner may touch: namespaced kind, the owner's own namespace. -/
 def Inside (cfg : Cfg) (ow : Owner) (k : Key) : Prop :=
@@ -97,7 +109,7 @@ def Inside (cfg : Cfg) (ow : Owner) (k : Key) : Prop :=
 theorem key_inside_of_preflight_ok (cfg : Cfg) (ow : Owner) (cls : String) (inPhase : Bool) (p : PObj)
     (hns : ow.ns ≠ "") (hfl : cfg.flavour.nsEscalation = true) (hcls : ¬(inPhase = true ∧ cls ≠ ""))
     (hok : preflightObj cfg ow cls inPhase p = .ok) : Inside cfg ow (keyOf cfg ow p) := by
-  have := ((preflight_ok_iff cfg ow cls inPhase p).1 hok).2.2.2 hfl hns hcls
+  have := ((preflight_ok_iff cfg ow cls inPhase p).1 hok).2.2.2.2 hfl hns hcls
   simp [Inside, keyOf, this.1, this.2]
 
 def eventKey : Event → Key
@@ -181,6 +193,133 @@ theorem teardown_stays_inside (cfg : Cfg) (ow : Owner) (ps : List PObj) (w : Wor
         obtain ⟨evs, hev, hj⟩ := ih w' false
         exact ⟨ev0 ++ evs, by simp [hev, he0, List.append_assoc],
           fun e hm => (List.mem_append.1 hm).elim (hj0 e) (hj e)⟩
+
+/-! ### Preflight that cannot be evaluated (REST mapper / discovery failure)
+
+The checkers can also ERROR: the REST mapper's lookup fails with something that is not NoMatch.
+The code that exists returns that error from the pass — rollout (`CheckAllInPhase`) and teardown
+(`teardownPhaseObject`: "running preflight validation") alike — and retries; it never goes on to
+read, delete or patch the object the check was about. -/
+
+/-- every write of a teardown is the write of an object of the phase that PASSED the teardown-time
+preflight check, on that object's key. -/
+theorem teardown_events_of_ok (cfg : Cfg) (ow : Owner) (ps : List PObj) (w : World) :
+    ∀ (b : Bool), ∃ evs, (teardownPhase.go cfg ow ps w b).1.events = w.events ++ evs ∧
+      ∀ e ∈ evs, ∃ p ∈ ps, preflightObj cfg ow "" false p = .ok ∧ eventKey e = keyOf cfg ow p := by
+  induction ps generalizing w with
+  | nil => intro b; exact ⟨[], by simp [teardownPhase.go], by simp⟩
+  | cons p rest ih =>
+    intro b
+    have hhead : ∃ ev0, (teardownPhaseObject cfg ow p w).1.events = w.events ++ ev0 ∧
+        ∀ e ∈ ev0, preflightObj cfg ow "" false p = .ok ∧ eventKey e = keyOf cfg ow p := by
+      by_cases hok : preflightObj cfg ow "" false p = .ok
+      · cases Pko.Props.C05.teardownPhaseObject_shape cfg ow p w with
+        | nothing h _ => exact ⟨[], by simpa using h, by simp⟩
+        | deref cur ch res _ _ _ h => exact ⟨_, h, by intro e hm; simp at hm; subst hm; exact ⟨hok, rfl⟩⟩
+        | delete cur res _ _ h => exact ⟨_, h, by intro e hm; simp at hm; subst hm; exact ⟨hok, rfl⟩⟩
+      · refine ⟨[], ?_, by simp⟩
+        simp only [teardownPhaseObject]
+        cases hpo : preflightObj cfg ow "" false p with
+        | ok => exact absurd hpo hok
+        | violation => simp
+        | error => simp
+    obtain ⟨ev0, he0, hj0⟩ := hhead
+    have hj0' : ∀ e ∈ ev0, ∃ q ∈ p :: rest, preflightObj cfg ow "" false q = .ok ∧ eventKey e = keyOf cfg ow q :=
+      fun e hm => ⟨p, by simp, hj0 e hm⟩
+    simp only [teardownPhase.go]
+    cases hr : teardownPhaseObject cfg ow p w with
+    | mk w' res =>
+      rw [hr] at he0; simp only at he0
+      have lift : ∀ evs : List Event,
+          (∀ e ∈ evs, ∃ q ∈ rest, preflightObj cfg ow "" false q = .ok ∧ eventKey e = keyOf cfg ow q) →
+          ∀ e ∈ ev0 ++ evs, ∃ q ∈ p :: rest, preflightObj cfg ow "" false q = .ok ∧ eventKey e = keyOf cfg ow q := by
+        intro evs hj e hm
+        rcases List.mem_append.1 hm with hm | hm
+        · exact hj0' e hm
+        · obtain ⟨q, hq, h⟩ := hj e hm
+          exact ⟨q, List.mem_cons_of_mem _ hq, h⟩
+      cases res with
+      | err => exact ⟨ev0, he0, hj0'⟩
+      | done =>
+        obtain ⟨evs, hev, hj⟩ := ih w' b
+        exact ⟨ev0 ++ evs, by simp [hev, he0, List.append_assoc], lift evs hj⟩
+      | notDone =>
+        obtain ⟨evs, hev, hj⟩ := ih w' false
+        exact ⟨ev0 ++ evs, by simp [hev, he0, List.append_assoc], lift evs hj⟩
+
+/-- **teardown_mapper_error_object_untouched**: the teardown of an object whose preflight check
+cannot be evaluated returns the error at once: no read-dependent decision, no write, no watch
+registration — the world is exactly what it was. -/
+theorem teardown_mapper_error_object_untouched (cfg : Cfg) (ow : Owner) (p : PObj) (w : World)
+    (h : cfg.mapErr p.kind = true) :
+    (teardownPhaseObject cfg ow p w).2 = .err ∧
+    (teardownPhaseObject cfg ow p w).1.events = w.events ∧
+    (teardownPhaseObject cfg ow p w).1.store.objs = w.store.objs ∧
+    (teardownPhaseObject cfg ow p w).1.watched = w.watched := by
+  simp [teardownPhaseObject, mapper_error_is_error cfg ow "" false p h]
+
+/-- **teardown_mapper_error_not_done**: a teardown pass over a phase that lists an object whose
+check cannot be evaluated ends with the error (it is retried) — never `done`. -/
+theorem teardown_mapper_error_not_done (cfg : Cfg) (ow : Owner) (ps : List PObj) (p : PObj)
+    (hp : p ∈ ps) (h : cfg.mapErr p.kind = true) (w : World) :
+    (teardownPhase cfg ow ps w).2 = .err := by
+  suffices H : ∀ (ps : List PObj), p ∈ ps → ∀ (w : World) (b : Bool), (teardownPhase.go cfg ow ps w b).2 = .err from
+    H ps hp w true
+  intro ps
+  induction ps with
+  | nil => intro hp; simp at hp
+  | cons q rest ih =>
+    intro hp w b
+    simp only [teardownPhase.go]
+    rcases List.mem_cons.1 hp with heq | hin
+    · subst heq
+      have := (teardown_mapper_error_object_untouched cfg ow p w h).1
+      cases hr : teardownPhaseObject cfg ow p w with
+      | mk w' res => rw [hr] at this; simp only at this; subst this; rfl
+    · cases hr : teardownPhaseObject cfg ow q w with
+      | mk w' res =>
+        cases res with
+        | err => rfl
+        | done => exact ih hin w' b
+        | notDone => exact ih hin w' false
+
+/-- **teardown_never_touches_faulted_kind**: no delete / de-reference patch of a teardown pass
+targets an object of a kind whose REST-mapper lookup fails in that pass — whatever the store holds
+under the listed names (objects naming the owner in their ownerReferences included). -/
+theorem teardown_never_touches_faulted_kind (cfg : Cfg) (ow : Owner) (ps : List PObj) (w : World) :
+    ∃ evs, (teardownPhase cfg ow ps w).1.events = w.events ++ evs ∧
+      ∀ e ∈ evs, cfg.mapErr (eventKey e).kind = false := by
+  obtain ⟨evs, hev, hj⟩ := teardown_events_of_ok cfg ow ps w true
+  refine ⟨evs, hev, ?_⟩
+  intro e he
+  obtain ⟨p, _, hok, hk⟩ := hj e he
+  rw [hk]
+  exact ((preflight_ok_iff cfg ow "" false p).1 hok).1
+
+/-- **rollout_mapper_error_writes_nothing**: a rollout pass over a phase that lists an object whose
+check cannot be evaluated writes nothing at all and ends with the error (retried). -/
+theorem rollout_mapper_error_writes_nothing (cfg : Cfg) (ow : Owner) (prev : List Prev) (cls : String)
+    (ps : List PObj) (p : PObj) (hp : p ∈ ps) (h : cfg.mapErr p.kind = true) (w : World) :
+    (reconcilePhase cfg ow prev cls ps w).1.events = w.events ∧
+    (reconcilePhase cfg ow prev cls ps w).1.store.objs = w.store.objs ∧
+    (reconcilePhase cfg ow prev cls ps w).2 = .err := by
+  have hany : (ps.map (preflightObj cfg ow cls true)).any (· = .error) = true := by
+    simp; exact ⟨p, hp, mapper_error_is_error cfg ow cls true p h⟩
+  have : preflightPhase cfg ow cls ps = .error := by simp [preflightPhase, hany]
+  simp [reconcilePhase, this]
+
+/-- Non-vacuity: a foreign-namespace object that carries the owner's controller reference is
+deleted by NOBODY when the mapper fails — and the same teardown does delete it … never: with a
+healthy mapper it is a violation and skipped; the object in the owner's own namespace is deleted. -/
+example :
+    let ow : Owner := ⟨pkoGroup, "ObjectSet", "ns1", "own", "u-own", 3, false, ""⟩
+    let cfg : Cfg := { st := .native, flavour := ⟨true, true, true⟩,
+                       scope := fun k => if k = "ClThing" then .cluster else .namespaced, force := false }
+    let bad : Cfg := { cfg with mapErr := fun k => k = "NsThing" }
+    preflightObj bad ow "" false ⟨"NsThing", "ns2", "x", .prevent, "p", false, .accept⟩ = .error ∧
+    preflightObj cfg ow "" false ⟨"NsThing", "ns2", "x", .prevent, "p", false, .accept⟩ = .violation ∧
+    preflightObj cfg ow "" false ⟨"NsThing", "", "x", .prevent, "p", false, .accept⟩ = .ok := by
+  decide
 
 /-- **listed_twice_writes_nothing**: an ObjectSet that lists the same object twice — same kind,
 namespace and name; a `PObj` carries no API version, so entries that differ only in the version
